@@ -44,7 +44,7 @@ Qed.
 
 Lemma vstack_wf (l : list (arr T)) r : vstack dflt l = Ok r -> wf r.
 Proof.
-  unfold vstack. destruct l as [|first rest]; [apply new_wf|]. intros H. do 2 inv_bind H. now apply reshape_ok in H as (_ & _ & ?).
+  unfold vstack. destruct l as [|first rest]; [apply new_wf|]. intros H. do 3 inv_bind H. now apply reshape_ok in H as (_ & _ & ?).
 Qed.
 
 Lemma hstack_gen_wf strict (l : list (arr T)) r : Forall wf l -> hstack_gen dflt strict l = Ok r -> wf r.
